@@ -17,7 +17,7 @@ def run(ctx):
     recs = []
     for i, force in enumerate([{"evlog": 1, "kind": kinds, "nprocs": 1}, {"evlog": 1, "kind": kinds, "nprocs": 2, "perturb": 2},
                                {"evlog": 1, "kind": kinds, "nprocs": 4, "perturb": 1}]):
-        recs += S.sweep(ctx, 130 if q else 4000, 36 if q else 160, precs="dszc", drivers=("gssv", "gssvx"), flavour="asan", force=force, seed_offset=500 + i)
+        recs += S.sweep(ctx, 130 if q else 1500, 36 if q else 120, precs="dszc", drivers=("gssv", "gssvx"), flavour="asan", force=force, seed_offset=500 + i)
     allocs = 0
     for r in recs:
         if r["status"] == "ok":
@@ -42,8 +42,10 @@ def run(ctx):
         has_diag = ("exceeded" in err or "Memory allocation failed" in err or "Not enough memory" in err)
         if r["status"] == "crash" and r["rc"] is not None and r["rc"] > 0 and has_diag and "Sanitizer" not in err:
             diag += 1; continue
-        if (r["status"] == "crash" and has_diag and r["rc"] == 255 and "DEADLYSIGNAL" in err and "overflow" not in err and "use-after" not in err
-                and err.find("DEADLYSIGNAL") > max(err.find("exceeded"), err.find("Memory allocation failed"))):
+        import re as _re
+        kinds = _re.findall(r"ERROR: AddressSanitizer: (\S+)", err)
+        if (r["status"] == "crash" and has_diag and r["rc"] == 255 and all(k == "SEGV" for k in kinds) and "runtime error" not in err
+                and err.find("AddressSanitizer") > max(err.find("exceeded"), err.find("Memory allocation failed"))):
             # the diagnostic was printed and the aborting thread's exit(-1) ended the process (rc 255, not ASan's abort): while exit() ran the
             # shared libraries' destructors (OpenBLAS frees its buffers) another worker, still inside a BLAS kernel, took a SIGSEGV whose
             # report ASan could not finish.  The run did stop through the library's diagnostic path; any memory error ASan can name
